@@ -17,4 +17,13 @@ PROPS = {
         ],
         "partial": "C13_ic states the result as the (count, total) pairs passed to C03's icCalc plus the definition of icValue for every Num instance; the real-number identity -ln(|union|/N) >= 0 is C03's theorem, not restated here. The panic behaviour for sets with a non-member is modelled and compared (short-circuit of child_nodes included) but only its absence under `Resolves` is a theorem.",
     },
+    "C18": {
+        "rule": "pairs (old, new) of ontologies of 3..35 terms loaded through the binary format (v3, 1/8 v2, the two sides independently) with obsolete flags, replacements (resolving / not resolving / none) and gene/omim/orpha records; the case index cycles through 17 edit kinds: none, rename_term, add_parent (kept acyclic), remove_parent, flip_obsolete, change_replacement, add_link, remove_link, add_record, remove_record, rename_record (gene or disease), add_term, remove_term (leaf), version, several (2-4 random edits), many (5-15), dangling_parent (malformed: a parent id that is not a term; changed_hpo_terms must panic on both sides); per pair: compare old new, compare new old (swap), compare old old (self), the binary round trip rtbytes old -> slot 2 with `same` and compare old rt / compare rt new, and the harness oracle (`oracle compare`: all set differences and deltas recomputed from per-item accessors of the two ontologies, duplicates and Some(empty) rejected, swap checked); every accessor of Comparison (incl. Display), HpoTermDelta and AnnotationDelta is printed, lists sorted by id; distinct = distinct op lists; non-trivial = at least one edit was applied",
+        "assumptions": [
+            "'replacement' is read as the code has it: replaced_by().map(id), the replacement id resolved in the term's own ontology; two different raw replacement ids that both do not resolve compare as unchanged (stat raw_replacement_differs_resolved_equal counts such terms; the raw ids are not an observable of Comparison)",
+            "Vec results built from HashMap/HashSet iteration are compared sorted by id",
+            "rtbytes is the identity in the model: generated only for ontologies loaded by fload (names <= 255 bytes, replacement 0 already read as none, default categories/modifier), where C07 documents as_bytes/from_bytes to preserve every observable; `same` checks that on the implementation in every case",
+        ],
+        "partial": "the round-trip clause ('comparing with the binary round-trip reports nothing') is established by correspondence (rtbytes + same + compare in every case) together with C18_self; a theorem decode(encode o) = o belongs to C07's binary model, which this revision does not contain. The panic of changed_hpo_terms on a dangling parent id is modelled and compared, theorems assume ParentsResolve.",
+    },
 }
